@@ -483,7 +483,7 @@ func (f *httpFetcher) fetch(ctx context.Context, rs []region, retry bool) (multi
 	// Request to the registry
 	verifhook.Gate("fetcher.beforeURL", f)
 	f.urlMu.Lock()
-	url := f.url
+	url, header := f.url, f.header
 	verifhook.Event("fetcher.readURL", f, url)
 	f.urlMu.Unlock()
 	verifhook.Gate("fetcher.afterURL", f)
@@ -492,7 +492,7 @@ func (f *httpFetcher) fetch(ctx context.Context, rs []region, retry bool) (multi
 		return nil, err
 	}
 	req.Header = http.Header{}
-	maps.Copy(req.Header, f.header)
+	maps.Copy(req.Header, header)
 	var ranges string
 	for _, reg := range requests {
 		ranges += fmt.Sprintf("%d-%d,", reg.b, reg.e)
@@ -559,7 +559,7 @@ func (f *httpFetcher) check() error {
 	}
 	verifhook.Gate("fetcher.beforeURL", f)
 	f.urlMu.Lock()
-	url := f.url
+	url, header := f.url, f.header
 	verifhook.Event("fetcher.readURL", f, url)
 	f.urlMu.Unlock()
 	verifhook.Gate("fetcher.afterURL", f)
@@ -568,7 +568,7 @@ func (f *httpFetcher) check() error {
 		return fmt.Errorf("check failed: failed to make request: %w", err)
 	}
 	req.Header = http.Header{}
-	maps.Copy(req.Header, f.header)
+	maps.Copy(req.Header, header)
 	req.Close = false
 	req.Header.Set("Range", "bytes=0-1")
 	res, err := f.tr.RoundTrip(req)
